@@ -137,6 +137,25 @@ def c16(tier):
     rep = common.Reporter("C16", tier)
     sd = common.seed()
     scs = real_checks.explore(tier, sd, per_year=(30 if tier == "quick" else 400), replays=False)
+    # plain returns in which every payer form has a DIFFERENT number of copies and every copy different amounts
+    # (a per-payer loop that runs over another form's count only shows then)
+    for year in scenarios.YEARS:
+        for k, counts in enumerate(({"w-2": 2, "1099-int": 1, "1099-div": 3, "1099-r": 0, "1099-g": 0, "1098": 0},
+                                    {"w-2": 3, "1099-int": 2, "1099-div": 1, "1099-r": 0, "1099-g": 0, "1098": 0})):
+            r2 = random.Random("c16-dir-%d-%d-%d" % (year, k, sd))
+            p = scenarios.Profile(r2, year=year, nc=False, status="Single", dependents=0, itemize=False, sched1_adjust=False, wage_scale=60000,
+                                  ira=False, qualified_div=True, foreign_tax=True, hsa_you=False, hsa_spouse=False, f8606=False, div_heavy=False, dup_w2=False,
+                                  plain_payers=True)
+            p.n = dict(counts, **{"1099-oid": 0})
+            ov = {}
+            for t, box, amts in (("1099-int", "box_6", ("20.00", "31.00", "7.50")), ("1099-div", "box_7", ("0.00", "120.00", "45.50")),
+                                 ("1099-int", "box_1", ("410.00", "95.00", "1200.00")), ("1099-div", "box_1a", ("3100.00", "800.00", "150.00")),
+                                 ("1099-div", "box_1b", ("2000.00", "300.00", "0.00")), ("w-2", "box_2", ("9000.00", "700.00", "2100.00"))):
+                for n in range(counts[t]):
+                    ov["%s:%d.%s" % (t, n, box)] = amts[n]
+            tr, res, solver, ans = scenarios.solve_scenario(year, ["1040"], p, r2, overrides=ov, snap="none")
+            scs.append({"year": year, "request": ["1040"], "profile": p.describe(), "given": dict(ans.given), "kinds": dict(ans.kinds),
+                        "trace": tr, "res": res, "variants": [], "sid": "%d/dir%d" % (year, k)})
     pairs, meta = [], {}
     nbase = 0
     rng = random.Random(1234 + sd)
@@ -517,6 +536,17 @@ def c09(tier):
                 if kind == "hsa":
                     continue
                 add(tr, res, year, {"kind": "limit-" + kind, "year": year, "request": ["1040"], "given": dict(given)}, given)
+    # the foreign-tax threshold depends on the filing status (600 on a joint return, 300 otherwise): plain returns of every
+    # status with foreign tax just below, between and just above the two amounts
+    for year in scenarios.YEARS:
+        for st in scenarios.STATUSES:
+            for amt in (("300.01", "450.00", "600.00", "600.01") if tier == "quick" else ("299.99", "300.00", "300.01", "450.00", "599.99", "600.00", "600.01", "900.00")):
+                rng = random.Random("lim-ft-%d-%s-%s-%d" % (year, st, amt, sd))
+                p = scenarios.Profile(rng, year=year, nc=False, status=st, dependents=0, itemize=False, sched1_adjust=False, wage_scale=120000,
+                                      ira=False, qualified_div=False, foreign_tax=False, hsa_you=False, hsa_spouse=False, f8606=False, div_heavy=False, dup_w2=False)
+                p.n = {"w-2": 1, "1099-int": 1, "1099-div": 0, "1099-r": 0, "1099-g": 0, "1098": 0, "1099-oid": 0}
+                tr, res, solver, ans = scenarios.solve_scenario(year, ["1040"], p, rng, overrides={"1099-int:0.box_6": amt}, snap="none")
+                add(tr, res, year, {"kind": "limit-foreign-status", "year": year, "request": ["1040"], "given": dict(ans.given)}, ans.given)
     work = common.mkwork()
     try:
         rows, res_t = run_oracle("Gates", "HV_FACTS_FILE", {"gates": cat, "obs": obs}, work, "C09")
@@ -596,6 +626,8 @@ def c02(tier):
         st = STATUS_INDEX.get(values.get("1040.filing_status", ""), 0)
         if st == 0:
             return set()
+        if "nc_d-400.20a" in S and "nc_d-400.20b" in S:
+            S["nc_d-400.20a_plus_20b"] = S["nc_d-400.20a"] + S["nc_d-400.20b"]      # the two halves of "N.C. income tax withheld"
         absent = set()
         pending = []
         forms_present = set(n.split(".")[0] for n in values)
@@ -616,6 +648,17 @@ def c02(tier):
                         continue
                     if e.get("cond_nonzero") and S.get(line, 0) == 0:
                         continue
+                if op == "addstate":
+                    # the amount boxes of every payer copy whose state box names the state
+                    args = []
+                    for (ins, sbox, abox) in e["terms"]:
+                        for n in values:
+                            if n.split(".")[0].split(":")[0] == ins and n.split(".", 1)[1] == sbox and values[n].strip().split(".")[-1] == e["state"]:
+                                a = "%s.%s" % (n.split(".")[0], abox)
+                                if a in S:
+                                    args.append(a)
+                    args = sorted(args)
+                    op = "add"
                 if op == "addprefix":
                     args = sorted(n for n in S if n.startswith("%s.%s" % (finst, e["prefix"])))
                     op = "add"
@@ -648,6 +691,8 @@ def c02(tier):
                 tol = 0
                 if places == 0:
                     tol = 50 if op in ("carry", "mul", "mull", "min", "minconst", "same") else 0
+                if "tol" in e:
+                    tol = e["tol"]                       # stated with the equation (whole-dollar halves of a sum of cent amounts)
                 key = json.dumps([year, e["form"], e["line"], op, e.get("origin"), cond, e.get("condis", 0)] + [a.split(".", 1)[1] for a in args])
                 rec = {"eid": 0, "op": "subx" if e.get("exact_sub") else op, "line": line, "args": args, "src": src, "floor": bool(e.get("floor")), "cap0": bool(e.get("cap0")),
                        "num": e.get("num", 0), "den": e.get("den", 1), "k": e.get("k", 0), "tol": tol, "consts": e.get("consts", [0, 0, 0, 0, 0]),
@@ -794,6 +839,9 @@ def isolated_probes(eqs_by_year, tier, seed_):
                         def __getitem__(s2, k):
                             k2 = k if "." in k else "%s.%s" % (finst, k)
                             if k2 not in vals:
+                                # a line the instruction does not mention: not probed (serving arbitrary amounts for it would judge
+                                # unreachable combinations -- e.g. Form 1040 line 1z also adds line 1i, which is always zero, and a
+                                # definition may inline another line); such lines are judged on explored returns only
                                 raise Skip()
                             return vals[k2]
 
